@@ -122,12 +122,13 @@ def write_results():
         others = "; ".join("%s: %s" % (p, ", ".join(sorted({k.split(":")[0] for k in ks}))) for p, ks in sorted(nv.items()) if p != own)
         status = "detected" if nv.get(own) else ("detected (other property only)" if nv else
                                                  ("not statically detectable" if m.get("not_statically_detectable") else "MISSED"))
-        rows.append((sid, own, m.get("title", "")[:90], m.get("needs_to_manifest", "")[:160].replace("\n", " "), status, own_hit, others))
+        rows.append((sid, "%s (r%s)" % (own, m.get("round", 1)), m.get("title", "")[:90], m.get("needs_to_manifest", "")[:160].replace("\n", " "),
+                     status, m.get("first_evaluation", "-"), own_hit, others))
     with open(os.path.join(SEEDED, "RESULTS.md"), "w") as fh:
         fh.write("# Seeded breakages: which checks catch which\n\n")
         fh.write("Generated by `selftest/seeded.py eval` (all 20 quick checks run on a scratch copy with the seed applied). "
                  "`rules (own property)` = rule ids reporting a new violation under the seed's own property.\n\n")
-        fh.write("| seed | property | change | needs to manifest | verdict | rules (own property) | also reported under |\n|---|---|---|---|---|---|---|\n")
+        fh.write("| seed | property (round) | change | needs to manifest | verdict now | first evaluation (rules as they were when the seed arrived) | rules (own property) | also reported under |\n|---|---|---|---|---|---|---|---|\n")
         for r in rows:
             fh.write("| %s |\n" % " | ".join(x.replace("|", "/") for x in r))
         det = sum(1 for r in rows if r[4].startswith("detected"))
@@ -157,6 +158,10 @@ def main(argv):
             mp = os.path.join(SEEDED, sid, "meta.json")
             meta = json.load(open(mp))
             meta["static_checks"] = dict(detected=bool(fired), new_violations=fired or {}, error=err)
+            if "first_evaluation" not in meta and fired is not None:
+                own_ = meta.get("property")
+                meta["first_evaluation"] = "detected" if (fired or {}).get(own_) else (
+                    "detected under another property only" if fired else "missed")
             json.dump(meta, open(mp, "w"), indent=1)
             own = meta.get("property")
             print("%-8s %-9s own=%s %s %s" % (sid, "DETECTED" if fired else ("ERROR" if fired is None else "missed"), own,
